@@ -22,11 +22,16 @@ CHECKS = {
             "coordinates in a small stated range (histogram.__init__ formats its bins: C boundary); the 1-d "
             "bin search is the linear-scan reference (C06 layer K).", CH),
     "C12": ("2/C12",
-            "scale/add/set_nevents/graph.scale/hist_to_graph/iter_bins*/iter_cells/ToCSV executed "
-            "symbolically over shapes (1-3 dims), offsets, weights, namings, modes, ranges; integer scales "
-            "exhaustively, symbolic float scales as bug hunting.",
-            "contents are concrete tags (symbolic contents x symbolic scale is non-linear; '{:f}' and "
-            "histogram.__init__ format their arguments); tolerance in the oracle.", CH),
+            "engine R: histogram.scale/ScaleTo, add, get/set_nevents, graph.scale and hist_to_graph are "
+            "run on symbolic REAL contents, edges, scales, weights and coordinates (proxy execution of the "
+            "real code, one validity query in non-linear real arithmetic per obligation) for every shape in "
+            "the bound; CrossHair: the same over concrete tagged contents with integer scales, plus "
+            "iter_bins*/iter_cells index ranges and ToCSV round trips over shapes, namings, modes, ranges.",
+            "engine R reasons over the reals ('up to rounding' is where floats meet it; counterexamples are "
+            "replayed with floats and a 1e-9 tolerance); shapes concrete; CSV / iteration conditions use "
+            "concrete tagged contents ('{:f}' is a C boundary).",
+            "proxy symbolic execution of the real lena code over z3 reals with NRA validity queries "
+            "(engine R, verif/symreal.py) and " + CH),
     "C19": ("2/C19",
             "histories of runs of the full output chain over an in-memory file system, converters and "
             "template environment: per run data/template change bits and a 4-bit deletion set are symbolic; "
@@ -69,10 +74,14 @@ CHECKS = {
     "C09": ("2/C09",
             "operation histories fill/compute/reset of Count, Sum, Mean, Vectorize, StoreFilled, GroupBy, "
             "Histogram with symbolic data and contexts vs the documented aggregate and vs a fresh element "
-            "on the suffix after the last reset; VarianceMeanCount and DSum over finite tables, the DSum "
-            "precision loop for every required precision through a contract stub.",
-            "Decimal is a C boundary (table + contract stub); GroupBy group order not part of the claim.",
-            CH),
+            "on the suffix after the last reset; engine R: Sum, Mean, VarianceMeanCount (corrected or not) "
+            "and Vectorize of them on symbolic REAL data for every history string over {fill, compute, "
+            "reset} in the bound (variance as a polynomial identity); DSum over a finite table of doubles "
+            "and its precision loop for every required precision through a contract stub.",
+            "Decimal is a C boundary (table + contract stub); GroupBy group order not part of the claim; "
+            "engine R is over the reals.",
+            "proxy symbolic execution of the real lena code over z3 reals with NRA validity queries "
+            "(engine R, verif/symreal.py) and " + CH),
     "C13": ("2/C13",
             "programs of SetContext/StoreContext/UpdateContextFromStatic/MakeFilename/Write/Cache items "
             "in 5 tree shapes (flat, nested, Split, Source) with a symbolic cut are built symbolically; "
@@ -87,8 +96,9 @@ CHECKS = {
             "variable descriptions compared with snapshots.",
             "pool of the harness (pairwise distinct non-empty types, nested extra attributes).", CH),
     "C15": ("2/C15",
-            "selector specifications (10 shapes over 6 leaf kinds, both raise_on_error settings, own "
-            "settings of nested selector objects) vs a reference evaluator; SelectContext; Filter; "
+            "selector specifications (12 shapes over 7 leaf kinds including a SelectContext object, both "
+            "raise_on_error settings, own settings of nested selector objects) vs a reference evaluator; "
+            "SelectContext with function, raising and class predicates; Filter; "
             "GroupBy over every accepted (group_by, merge) subset pair of the key alphabet vs a "
             "projection reference (two readings of 'key path' accepted).",
             "contexts concrete per path (json.dumps); key sets listing a key on both sides are outside.",
@@ -193,6 +203,12 @@ def main():
                                "deciding branches; driver verif/run.py shards the bound over 16 "
                                "worker processes, adds a reachability twin per condition and "
                                "replays every counterexample in plain CPython"},
+            {"name": "reals-R", "path": "verif/symreal.py",
+             "serves_properties": [p for p in ("C09", "C12") if p in CHECKS],
+             "kind_free_text": "proxy objects holding z3 Real terms are passed through the real lena "
+                               "functions; comparisons fork paths (feasibility by z3, depth-first "
+                               "re-execution), obligations are validity queries in non-linear real "
+                               "arithmetic; models are replayed with floats"},
             {"name": "kernel-K", "path": "verif/kernel.py",
              "serves_properties": [p for p in ("C06",) if p in CHECKS],
              "kind_free_text": "AST -> SMT translation (regenerated from /repo source per run) of "
